@@ -67,6 +67,16 @@ func subtagMatches(langStr string, subtag string) bool {
 	}
 }
 
+// ltagMatches returns true if [specific], the language of the text, is
+// the language [language] of a 'ltag' table or a refinement of it ("tr-TR" for "tr").
+// It is false when one of them is not set.
+func ltagMatches(language, specific string) bool {
+	if language == "" || specific == "" {
+		return false
+	}
+	return langMatches(specific, language)
+}
+
 func langMatches(langStr, spec string) bool {
 	l := len(spec)
 	return strings.HasPrefix(langStr, spec) && (len(langStr) == l || langStr[l] == '-')
